@@ -7,7 +7,8 @@ from .. import gen, ser
 from ..val import veq, clone
 
 ID = 'C05'
-SIZES = {'quick': 3000, 'thorough': 150000}
+SIZES = {'quick': 3000, 'thorough': 300000}
+REQUIRED_EVENTS = ['independent_decodes', 'bkl_rereads', 'routes_agreed']
 RULE = ('streams of 1-4 documents over trees of printable $-free strings with many look-alikes of other tokens (numbers, booleans, null, dates, '
         'comment/separator/indicator characters, empty and padded strings, quotes, backslashes, non-ASCII; thorough also interior newlines and '
         '---/+++ lines inside strings), 64-bit integers, doubles, bools, empty maps and lists, map/list/scalar roots (TOML: map roots). kind=rt: '
